@@ -4,7 +4,7 @@ from harness.common import traffic_syms, gt_sets
 
 PROPERTY = "C12"
 LEVEL = "model_checking"
-BOUNDS = {"hours_per_series": "N=2", "skeletons": "T1,T2,T3,T5(serverless)", "k": "symbolic, k>0",
+BOUNDS = {"hours_per_series": "N=2", "skeletons": "T1,T2,T2c(two countries on one network),T3,T5(serverless)", "k": "symbolic, k>0",
           "drivers": "one at a time, one object at a time; driver base value and traffic symbolic"}
 ASSUMPTIONS = ["k > 0; driver base value > 0; for partially driven aggregates (one country of two, one device of two, "
                "one job of several) the obligation is the affine form f(k d) - f(d) = (k-1)(f(d) - f(0))",
@@ -163,6 +163,8 @@ ROWS = {
            ("device.power", "dev2"), ("device.lifespan", "dev")],
     "T2": [("country.average_carbon_intensity", "fr"), ("device.power", "dev"), ("job.data_transferred", "job"),
            ("device.carbon_footprint_fabrication", "dev")],
+    "T2c": [("country.average_carbon_intensity", "fr"), ("country.average_carbon_intensity", "de"),
+            ("network.bandwidth_energy_intensity", "net"), ("job.data_transferred", "job"), ("device.power", "dev2")],
     "T5": [("server.power_usage_effectiveness", "srv"), ("server.power_usage_effectiveness", "srv2"),
            ("server.average_carbon_intensity", "srv2"), ("server.lifespan", "srv2"),
            ("storage.lifespan", "st2"), ("server.carbon_footprint_fabrication", "srv")],
@@ -176,7 +178,7 @@ def plan(tier, seed):
             if tier == "quick" and sk in ("T2",) :
                 continue
             p.append(("driver", dict(skeleton=sk, kind=kind, target=target, n=2)))
-    for sk in ("T1", "T3", "T5"):
+    for sk in ("T1", "T3", "T5", "T2c"):
         p.append(("traffic", dict(skeleton=sk, n=2)))
     if tier == "thorough":
         for sk, rows in ROWS.items():
